@@ -369,6 +369,13 @@ func init() {
 		i := int(fr.i.concInt(fr, args[0]))
 		return fr.i.lastBlock[i].kind
 	}
+	harnessAPI["vGlobalWrites"] = func(fr *frame, args []value) value { return len(fr.i.globalWrites) }
+	harnessAPI["vGlobalWriteSite"] = func(fr *frame, args []value) value {
+		if len(fr.i.globalWrites) == 0 {
+			return ""
+		}
+		return fr.i.globalWrites[0]
+	}
 	harnessAPI["vFreeze"] = func(fr *frame, args []value) value {
 		fr.i.freeze(args[0])
 		return nil
@@ -753,6 +760,17 @@ func init() {
 		"internal/race.Read", "internal/race.Write", "internal/race.ReadRange", "internal/race.WriteRange"} {
 		externals[n] = nop
 	}
+	lock := func(fr *frame, args []value) value { fr.i.locksHeld++; return nil }
+	unlock := func(fr *frame, args []value) value {
+		if fr.i.locksHeld > 0 {
+			fr.i.locksHeld--
+		}
+		return nil
+	}
+	externals["(*sync.Mutex).Lock"] = lock
+	externals["(*sync.RWMutex).Lock"] = lock
+	externals["(*sync.Mutex).Unlock"] = unlock
+	externals["(*sync.RWMutex).Unlock"] = unlock
 	externals["(*sync.Mutex).TryLock"] = func(fr *frame, args []value) value { return true }
 	externals["(*sync.Pool).Get"] = func(fr *frame, args []value) value {
 		p := args[0].(*value)
@@ -787,6 +805,12 @@ func init() {
 	}
 	externals["sync.OnceFunc"] = func(fr *frame, args []value) value { return notHandled }
 	// sync/atomic on plain cells
+	atomicSet := func(fr *frame, c *value, v value) {
+		fr.i.atomicDepth++
+		fr.i.setCell(c, v)
+		fr.i.atomicDepth--
+	}
+	_ = atomicSet
 	atomicCell := func(fr *frame, recv value) *value {
 		p := recv.(*value)
 		if p == nil {
@@ -802,24 +826,24 @@ func init() {
 		externals["sync/atomic.Add"+ty] = func(fr *frame, args []value) value {
 			c := atomicCell(fr, args[0])
 			nv := fr.i.binop(fr, token.ADD, nil, *c, args[1])
-			fr.i.setCell(c, nv)
+			atomicSet(fr, c, nv)
 			return nv
 		}
 		externals["sync/atomic.Load"+ty] = func(fr *frame, args []value) value { return *atomicCell(fr, args[0]) }
 		externals["sync/atomic.Store"+ty] = func(fr *frame, args []value) value {
-			fr.i.setCell(atomicCell(fr, args[0]), args[1])
+			atomicSet(fr, atomicCell(fr, args[0]), args[1])
 			return nil
 		}
 		externals["sync/atomic.Swap"+ty] = func(fr *frame, args []value) value {
 			c := atomicCell(fr, args[0])
 			old := *c
-			fr.i.setCell(c, args[1])
+			atomicSet(fr, c, args[1])
 			return old
 		}
 		externals["sync/atomic.CompareAndSwap"+ty] = func(fr *frame, args []value) value {
 			c := atomicCell(fr, args[0])
 			if fr.i.truth(fr, fr.i.binop(fr, token.EQL, nil, *c, args[1])) {
-				fr.i.setCell(c, args[2])
+				atomicSet(fr, c, args[2])
 				return true
 			}
 			return false
@@ -838,7 +862,7 @@ func init() {
 		if args[1].(bool) {
 			v = 1
 		}
-		fr.i.setCell(atomicCell(fr, args[0]), v)
+		atomicSet(fr, atomicCell(fr, args[0]), v)
 		return nil
 	}
 	externals["(*sync/atomic.Value).Load"] = func(fr *frame, args []value) value {
@@ -1330,5 +1354,98 @@ func (in *Interp) freeze(root value) {
 func (in *Interp) freezeHit(addr *value) {
 	if len(in.freezeHits) < 16 {
 		in.freezeHits = append(in.freezeHits, fmt.Sprintf("write to frozen cell %p", addr))
+	}
+}
+
+// ---------------------------------------------------------------- process-global write monitor
+
+// snapshotGlobals records every cell reachable from a package-level variable (after package
+// initialisation, before any harness code runs).  A later write to one of them is a write to state
+// that two runtimes in one process would share.
+func (in *Interp) snapshotGlobals() {
+	in.globalCells = map[*value]bool{}
+	in.globalMaps = map[*omap]bool{}
+	var walk func(v value)
+	cell := func(p *value) {
+		if p == nil || in.globalCells[p] {
+			return
+		}
+		in.globalCells[p] = true
+		walk(*p)
+	}
+	walk = func(v value) {
+		switch v := v.(type) {
+		case *value:
+			if v == nil || in.globalCells[v] {
+				return
+			}
+			in.globalCells[v] = true
+			switch c := (*v).(type) {
+			case structure:
+				for i := range c {
+					cell(&c[i])
+				}
+			case array:
+				for i := range c {
+					cell(&c[i])
+				}
+			default:
+				walk(c)
+			}
+		case []value:
+			full := v[:cap(v)]
+			for i := range full {
+				cell(&full[i])
+			}
+		case structure:
+			for i := range v {
+				cell(&v[i])
+			}
+		case array:
+			for i := range v {
+				cell(&v[i])
+			}
+		case iface:
+			walk(v.v)
+		case *omap:
+			if v == nil || in.globalMaps[v] {
+				return
+			}
+			in.globalMaps[v] = true
+			for i := range v.ents {
+				walk(v.ents[i].k)
+				walk(v.ents[i].v)
+			}
+		case *closure:
+			for _, e := range v.Env {
+				walk(e)
+			}
+		}
+	}
+	for g, p := range in.globals {
+		path := g.Pkg.Pkg.Path()
+		if !strings.HasPrefix(path, elpsModule) {
+			continue // std tables are read-only data; the elps module's globals are the subject
+		}
+		if strings.HasPrefix(g.Name(), "verif") || strings.HasPrefix(g.Name(), "vState") || strings.HasPrefix(g.Name(), "c0") || strings.HasPrefix(g.Name(), "c1") {
+			continue // harness state
+		}
+		cell(p)
+	}
+}
+
+func (in *Interp) noteGlobalWrite(addr *value) {
+	kind := "plain"
+	if in.atomicDepth > 0 {
+		kind = "atomic"
+	} else if in.locksHeld > 0 {
+		kind = "locked"
+	}
+	if kind == "plain" && len(in.globalWrites) < 32 {
+		fn := "?"
+		if in.curFn != nil {
+			fn = in.curFn.String()
+		}
+		in.globalWrites = append(in.globalWrites, fn)
 	}
 }
